@@ -316,6 +316,45 @@ fn main() {
                 }
             });
         }
+        "findunder" => {
+            // one-off generator: forced mate in 3 plies whose first move must be an under-promotion
+            use refchess::*;
+            use std::collections::HashSet;
+            let secs: u64 = args.get(1).and_then(|s| s.parse().ok()).unwrap_or(20);
+            let empty: HashSet<String> = HashSet::new();
+            std::thread::scope(|sc| {
+                for t in 0..jobs {
+                    let empty = &empty;
+                    sc.spawn(move || {
+                        let mut rng = rng::Rng64::new(seed * 104729 + t as u64);
+                        let start = std::time::Instant::now();
+                        while start.elapsed().as_secs() < secs {
+                            let mut p = corpus::random_rich(&mut rng);
+                            // put a pawn of the side to move on its seventh rank
+                            let (rank7, pawn) = if p.side == 0 { (6u8, PAWN) } else { (1u8, PAWN | BLACK_BIT) };
+                            let f = rng.below(8) as u8;
+                            let sq = (rank7 * 8 + f) as usize;
+                            if p.board[sq] != EMPTY {
+                                continue;
+                            }
+                            p.board[sq] = pawn;
+                            p.ep = None;
+                            if !p.is_sane() || p.legal_moves().is_empty() {
+                                continue;
+                            }
+                            if !matches!(solve::mate_distance(&p, 3, empty, 80_000), Ok(Some(3))) {
+                                continue;
+                            }
+                            let keepers: Vec<Mv> = p.legal_moves().into_iter().filter(|m| solve::move_keeps_mate(&p, *m, 3, empty, 80_000) == solve::Answer::Yes).collect();
+                            if keepers.is_empty() || !keepers.iter().all(|m| m.promo != 0 && m.promo != QUEEN) {
+                                continue;
+                            }
+                            println!("{} | {}", p.fen(), keepers.iter().map(|m| m.uci()).collect::<Vec<_>>().join(" "));
+                        }
+                    });
+                }
+            });
+        }
         "findc17" => {
             // one-off generator: positions with a short forced mate, >= 2 mate-keeping first moves,
             // one of which is a pawn move or a capture (used to extend the curated corpus)
